@@ -358,6 +358,7 @@ def split_goal(g, limit=12):
 
 
 _sym_cache = {}
+_array_syms = set()
 
 
 def symbols(e):
@@ -382,6 +383,8 @@ def symbols(e):
             d = x.decl()
             if d.kind() == z3.Z3_OP_UNINTERPRETED:
                 out.add(d.name())
+                if d.arity() == 0 and d.range().kind() == z3.Z3_ARRAY_SORT:
+                    _array_syms.add(d.name())
             todo.extend(x.children())
     _sym_cache[key] = (e, out)
     return out
@@ -551,15 +554,20 @@ def check(pc, goal, timeout_ms):
         return [p for p, c in zip(pc, chosen) if c]
 
     tried = set()
-    cap = min(8000, timeout_ms * 0.12)
-    for name, (mx, heavy, depth) in (('L2', (80, False, 2)), ('L3', (200, False, 3)), ('L4', (1500, True, 2))):
+    cap = min(5000, timeout_ms * 0.08)
+    levels = (('L2', (80, False, 2)), ('L3', (200, False, 3)), ('L4', (1500, True, 2)))
+    # a goal about array contents needs the quantified (heavy) hypotheses about those arrays: skip the light levels
+    arrays = {d for d in gs if d in _array_syms}
+    if arrays and any(h and (syms[i] & arrays) for i, (n, h) in enumerate(sizes)):
+        levels = (('L4', (1500, True, 2)),)
+    for name, (mx, heavy, depth) in levels:
         sub = select(mx, heavy, depth)
         if len(sub) == len(pc) or len(sub) in tried:
             continue
         tried.add(len(sub))
         gen = generalise(sub, goal)
         if gen is not None:
-            r, dt, s = _run('simp', gen[0], gen[1], min(3000, cap), seed)
+            r, dt, s = _run('simp', gen[0], gen[1], min(2000, cap), seed)
             total += dt
             if r == z3.unsat:
                 return 'unsat', total, None, '%s-generalised:%d/%d' % (name, len(sub), len(pc))
@@ -567,16 +575,19 @@ def check(pc, goal, timeout_ms):
         total += dt
         if r == z3.unsat:
             return 'unsat', total, None, '%s:%d/%d' % (name, len(sub), len(pc))
+    # all hypotheses: the strategies take turns with growing slices (the best one is not known in advance and they
+    # differ by an order of magnitude; iterative deepening costs at most ~2x the best strategy)
     reasons = []
-    tot_share = sum(SHARES.get(x, 0.3) for x in STRATEGIES)
-    for strat in STRATEGIES:
-        r, dt, s = _run(strat, pc, goal, timeout_ms * SHARES.get(strat, 0.3) / tot_share, seed)
-        total += dt
-        if r == z3.unsat:
-            return 'unsat', total, None, strat
-        if r == z3.sat:
-            return 'sat', total, s.model(), strat
-        reasons.append('%s:%s' % (strat, s.reason_unknown()))
+    for frac in (0.04, 0.12, 0.40):
+        reasons = []
+        for strat in STRATEGIES:
+            r, dt, s = _run(strat, pc, goal, timeout_ms * frac, seed)
+            total += dt
+            if r == z3.unsat:
+                return 'unsat', total, None, strat
+            if r == z3.sat:
+                return 'sat', total, s.model(), strat
+            reasons.append('%s:%s' % (strat, s.reason_unknown()))
     return 'unknown', total, None, ','.join(reasons)
 
 
@@ -612,7 +623,7 @@ def model_witness(model, info):
     return w
 
 
-def verify_function(tu, reg, fname, prop='CVC', timeout_ms=None, kinds=None, replayer=None):
+def verify_function(tu, reg, fname, prop='CVC', timeout_ms=None, kinds=None, replayer=None, only_configs=None):
     """returns (function_entry, results) in the README_UNITS format"""
     timeout_ms = timeout_ms or QUERY_TIMEOUT_MS
     area = reg.area
@@ -643,6 +654,8 @@ def verify_function(tu, reg, fname, prop='CVC', timeout_ms=None, kinds=None, rep
     runs = []
     try:
         for cfg in c.configs:
+            if only_configs is not None and cfg.get('name', 'default') not in only_configs:
+                continue
             grow = {}
             for attempt in range(8):
                 run = FunctionRun(tu, reg, fname, cfg)
